@@ -120,19 +120,25 @@ def parseShifts? (s : String) : Option (List (Ion × Int × Rat)) :=
 
 def showAnn (a : Annotation) : String := Wire.esc (Wire.showAnnotation a).toList
 
+def showErr : Err → String
+  | .valueError => "ERR:ValueError"
+
 def showFrag (f : Frag) : String :=
   ",".intercalate [ionName f.ion, toString f.start, toString f.stop, toString f.charge, toString f.isotope,
     showRat f.loss, showRat f.mass, showRat f.neutralMass, showRat f.mz, (if f.internal then "1" else "0"),
-    (if f.monoisotopic then "1" else "0"), showAnn f.sequence, Wire.esc f.unmodSequence]
+    (if f.monoisotopic then "1" else "0"), showAnn f.sequence, Wire.esc f.unmodSequence,
+    (match f.number with
+      | .ok n => String.ofList n.text
+      | .error e => showErr e),
+    (match f.label (fun q => (showRat q).toList) with
+      | .ok l => String.ofList l
+      | .error e => showErr e)]
 
 def showOut : Out → String
   | .frag f => showFrag f
   | .num x => showRat x
   | .label l => String.ofList l
   | .numLabel x l => showRat x ++ ":" ++ String.ofList l
-
-def showErr : Err → String
-  | .valueError => "ERR:ValueError"
 
 def showResult (parent : Annotation) : Except Err (List Out) → String
   | .error e => showErr e
